@@ -33,7 +33,7 @@ def gen_case(rng: random.Random, tier: str) -> dict:
     faults = []
     if fns and rng.random() < 0.35:
         nd, _d = rng.choice(fns)
-        faults.append({"kind": "raise", "node": nd["name"], "inv": 0, "when": rng.choice(["before", "after"]), "fid": 0})
+        faults.append({"kind": "raise", "node": nd["name"], "inv": 0, "when": rng.choice(["before", "after"]), "fid": 0, "exc": rng.choice(gen.EXC_KINDS)})
     ext = [e for e in g["ext"] if e not in g["lists"]]
     cfg = gen.gen_async_cfg(rng, allow_hold=False)
     cfg["shuffle"] = None
